@@ -17,8 +17,7 @@ from harness.impl import c09run as R
 
 IMPORTS = "From Ford Require Import Base.Str Base.Path Out.Names Out.Urls Gen.NavConds Out.Nav Corr.C09."
 THEOREMS = ["C09_relpath_resolves_any", "C09_relpath_resolves", "C09_site_resolves", "C09_url_depth1",
-            "C09_sibling_trick", "C09_sibling_trick_only_depth1", "C09_nav_pages_partial",
-            "C09_nav_region_exact", "C09_nav_pages_refuted", "C09_relative"]
+            "C09_sibling_trick", "C09_sibling_trick_only_depth1", "C09_nav_pages", "C09_relative"]
 ROOT = R.FAKE_ROOT + "/out"
 COMPS = ["a", "b", "doc", "proc", "m.html", "..", ".", "", "lists"]
 URLS = ["module/m.html", "proc/p.html", "proc/p.html#variable-x", "type/t.html#boundprocedure-b%28x%29",
@@ -84,13 +83,21 @@ def unit_cases(chk, rng, n):
             pre, post, has = "", "", False
         else:
             href, pre, post, has = rng.choice(["integer", "real(8)", "", "type(t)"]), "", "", False
+        dead = False
         if has and rng.random() < 0.3:
             pre = "type(" + pre
             post = post + ")"
+        if has and rng.random() < 0.25:        # an unresolved [[ref]] (an <a> without href) before the real link
+            pre = "<p>see <a>nosuch</a> and " + pre
+            post = post + "</p>"
+        if not has and rng.random() < 0.2:     # only target-less links: returned unchanged
+            pre, href, post, dead = "", rng.choice(["<p>see <a>nosuch</a> here</p>", "<a>x</a>/<a>y</a>",
+                                                   "<a>nosuch</a>"]), "", True
         out = R.impl_relurl(pre + href + post, page)
         if not core.is_ascii(out):
             continue
-        add(f"CRelurl {coq_str(pre)} {coq_str(href)} {coq_str(post)} {coq_bool(has)} {coq_str(page)} {coq_str(out)}",
+        add(f"CRelurl {coq_str(pre)} {coq_str(href)} {coq_str(post)} {coq_bool(has)} {coq_bool(dead)} "
+            f"{coq_str(page)} {coq_str(out)}",
             {"f": "relative_url", "text": pre + href + post, "page": page, "impl": out})
     # docstring links: the sibling-directory trick, static pages, markdown links
     for _ in range(n // 3):
@@ -155,12 +162,6 @@ def classify(p, spec):
     option combination); None = not a known finding"""
     o = spec["options"]
     pat, prob, pc, before = p["pattern"], p["problem"], p["page_class"], p.get("before", "")
-    if prob == "missing-target" and p["page"] == "index.html" and pat in ("./lists/files.html", "lists/files.html") \
-            and o["incl_src"] == "true":
-        return "index-files-link"
-    if prob == "absolute" and p["url"].startswith("<ROOT>/doc/") and (before.endswith("=>") or before.endswith(",")) \
-            and re.fullmatch(r"<ROOT>/doc/(proc|interface)/\*\.html|<ROOT>/doc/type/\*\.html#boundprocedure-\*", pat):
-        return "bound-binding-absolute"
     if prob == "missing-fragment" and pc == "interface/*" and pat == "../interface/*.html#moduleprocedure-*":
         return "genint-sidebar-fragment"
     if prob == "missing-target" and re.fullmatch(r"(\.\./)*sourcefile/\*\.html", pat) and o["incl_src"] == "false":
@@ -168,13 +169,15 @@ def classify(p, spec):
     if prob == "missing-target" and p["url"].startswith("doc/") and o["proc_internals"] == "true" \
             and pc in ("proc/*", "program/*", "interface/*"):
         return "doc-link-relative-to-cwd"
-    if prob == "missing-target" and pat == "../type/*.html#boundprocedure-*" and "private" not in o["display"]:
+    if prob == "missing-target" and "private" not in o["display"] and \
+            (pat == "../type/*.html#boundprocedure-*" or (pat == "*.html#boundprocedure-*" and pc == "type/*")):
         return "hidden-parent-type-binding"
     return None
 
 
-WITNESSES = {
-    # key: (files, options, predicate on (problems, error))
+FIXED_WITNESSES = {
+    # repaired defects (known_findings.d/C09.json "fixed"): they suppress nothing; if the witness fails again it
+    # is a violation like any other
     "index-files-link": (
         {"src/m.f90": "module m\n  !! doc\nend module m\n"}, {},
         lambda probs, err: any(p["page"] == "index.html" and p["url"].endswith("lists/files.html") for p in probs)),
@@ -182,6 +185,14 @@ WITNESSES = {
         {"src/m.f90": "module m\n  type :: t\n  contains\n    procedure, nopass :: b => p\n  end type t\ncontains\n"
                       "  subroutine p()\n  end subroutine p\nend module m\n"}, {},
         lambda probs, err: any(p["problem"] == "absolute" for p in probs)),
+    "relurl-keyerror-href": (
+        {"src/m.f90": "module m\n  type :: t\n  contains\n    procedure, nopass :: b => p\n      !! see [[nosuch]] here\n"
+                      "  end type t\ncontains\n  subroutine p()\n  end subroutine p\nend module m\n"}, {},
+        lambda probs, err: bool(err)),
+}
+
+WITNESSES = {
+    # open findings -- key: (files, options, predicate on (problems, error))
     "genint-sidebar-fragment": (
         {"src/m.f90": "module m\n  interface g\n    module procedure p, q\n  end interface g\ncontains\n"
                       "  subroutine p(a)\n    integer :: a\n  end subroutine p\n"
@@ -200,10 +211,6 @@ WITNESSES = {
                       "  type, public, extends(a_t) :: b_t\n  end type b_t\ncontains\n"
                       "  subroutine p()\n  end subroutine p\nend module m\n"}, {"display": ["public"]},
         lambda probs, err: any(p["problem"] == "missing-target" and "#boundprocedure-" in p["url"] for p in probs)),
-    "relurl-keyerror-href": (
-        {"src/m.f90": "module m\n  type :: t\n  contains\n    procedure, nopass :: b => p\n      !! see [[nosuch]] here\n"
-                      "  end type t\ncontains\n  subroutine p()\n  end subroutine p\nend module m\n"}, {},
-        lambda probs, err: bool(err) and "'href'" in err),
 }
 
 
@@ -279,9 +286,7 @@ def end_to_end(chk, rng, n, x):
                           "links_checked": res["stats"].get("internal"), "problems": len(res["problems"])})
         if res["error"]:
             errors += 1
-            if "Error rendering" in res["error"] and "'href'" in res["error"] and chk.known("relurl-keyerror-href", True):
-                known_hits["relurl-keyerror-href"] = known_hits.get("relurl-keyerror-href", 0) + 1
-            else:
+            if True:
                 chk.violation("failing-input", {"what": "FORD failed on a valid generated project",
                                                 "error": res["error"], "log": res["log"], "job": _job_json(job)}, True)
             continue
@@ -314,9 +319,7 @@ def end_to_end(chk, rng, n, x):
                               {"what": "navigation links emitted / list pages written differ from Gen/NavConds.v",
                                "nav": nv, "code": code, "job": _job_json(job)}, bool(code & 2 and not region))
             elif code & 2:
-                if region == 1 and chk.known("index-files-link", True):
-                    chk.disagreements += 1
-                else:
+                if True:
                     chk.violation("failing-input", {"what": "an emitted navigation link has no target page",
                                                     "nav": nv, "code": code, "job": _job_json(job)}, True)
 
@@ -368,6 +371,15 @@ def run(chk):
     for payload in getattr(chk, "_c09_deferred", []):
         chk.violation("broken-correspondence", payload, False)
     # recorded findings: replay each witness on the implementation
+    chk.extra["fixed_witness_replay"] = {}
+    for key, (files, options, pred) in FIXED_WITNESSES.items():
+        probs, err = run_files(files, options)
+        back = bool(pred(probs, err))
+        chk.extra["fixed_witness_replay"][key] = "FAILS AGAIN" if back else "stays fixed"
+        chk.count(("fixed-witness", key), nontrivial=True)
+        if back:
+            chk.violation("failing-input", {"what": f"repaired defect {key} is back", "files": files,
+                                            "options": options, "problems": probs[:5], "error": err}, True)
     chk.extra["witness_replay"] = {}
     for key, (files, options, pred) in WITNESSES.items():
         probs, err = run_files(files, options)
